@@ -13,7 +13,29 @@ import (
 	"github.com/kelindar/column/commit"
 )
 
-type rowState struct{ a, b, m int64 }
+type rowState struct{ a, b, m, r int64 }
+
+// ctr is a record whose user-supplied merge is the same order-sensitive v*3+d as column m; the
+// merge function is user code, so it may be pre-empted like any other: it yields to the scheduler
+type ctr struct{ N int64 }
+
+func (c *ctr) MarshalBinary() ([]byte, error) {
+	b := make([]byte, 8)
+	for i := 0; i < 8; i++ {
+		b[i] = byte(uint64(c.N) >> (56 - 8*uint(i)))
+	}
+	return b, nil
+}
+func (c *ctr) UnmarshalBinary(b []byte) error {
+	var n uint64
+	for _, x := range b {
+		n = n<<8 | uint64(x)
+	}
+	c.N = int64(n)
+	return nil
+}
+
+var userYield = func(string) {}
 
 type wspec struct {
 	insert bool // also inserts a row and deletes it again (row markers in the commit)
@@ -25,9 +47,9 @@ type wspec struct {
 
 func (w wspec) apply(s rowState) rowState {
 	if w.set {
-		return rowState{w.d, s.a + s.b - w.d, w.d}
+		return rowState{w.d, s.a + s.b - w.d, w.d, w.d}
 	}
-	return rowState{s.a + w.d, s.b - w.d, s.m*3 + w.d}
+	return rowState{s.a + w.d, s.b - w.d, s.m*3 + w.d, s.r*3 + w.d}
 }
 
 type scenOut struct {
@@ -82,6 +104,11 @@ func mkRowsColl(lg commit.Logger) *column.Collection {
 	c.CreateColumn("a", column.ForInt64())
 	c.CreateColumn("b", column.ForInt64())
 	c.CreateColumn("m", column.ForInt64(column.WithMerge(affine)))
+	c.CreateColumn("rec", column.ForRecord(func() *ctr { return new(ctr) }, column.WithMerge(func(v, d *ctr) *ctr {
+		userYield("u.merge")
+		v.N = v.N*3 + d.N
+		return v
+	})))
 	c.CreateIndex("big", "a", func(r column.Reader) bool { return r.Int() >= 5 })
 	return c
 }
@@ -95,13 +122,17 @@ func seedRows(c *column.Collection, rows []uint32) {
 		buf := func(name string, v uint64) *commit.Buffer {
 			b := commit.NewBuffer(16)
 			b.Reset(name)
-			b.PutUint64(commit.Put, off, v)
+			if name == "rec" {
+				b.PutBytes(commit.Put, off, make([]byte, 8))
+			} else {
+				b.PutUint64(commit.Put, off, v)
+			}
 			return b
 		}
 		row := commit.NewBuffer(16)
 		row.Reset("row")
 		row.PutOperation(commit.Insert, off)
-		c.Replay(commit.Commit{ID: commit.Next(), Chunk: commit.ChunkAt(off), Updates: []*commit.Buffer{row, buf("a", 0), buf("b", 100), buf("m", 0)}})
+		c.Replay(commit.Commit{ID: commit.Next(), Chunk: commit.ChunkAt(off), Updates: []*commit.Buffer{row, buf("a", 0), buf("b", 100), buf("m", 0), buf("rec", 0)}})
 	}
 }
 
@@ -110,7 +141,13 @@ func readRow(c *column.Collection, off uint32) (rs rowState, ok bool) {
 		a, ok1 := r.Int64("a")
 		b, ok2 := r.Int64("b")
 		m, ok3 := r.Int64("m")
-		rs, ok = rowState{a, b, m}, ok1 && ok2 && ok3
+		rs, ok = rowState{a, b, m, m}, ok1 && ok2 && ok3
+		if off != virginRow { // the record column is left alone on the row no one seeded
+			v, ok4 := r.Record("rec")
+			if ok = ok && ok4; ok4 {
+				rs.r = v.(*ctr).N
+			}
+		}
 		return nil
 	})
 	return
@@ -134,9 +171,9 @@ const virginRow = 32768 + 1 // a row in a block that does not exist until a writ
 
 func initOf(off uint32) rowState {
 	if off == virginRow {
-		return rowState{0, 0, 0}
+		return rowState{0, 0, 0, 0}
 	}
-	return rowState{0, 100, 0}
+	return rowState{0, 100, 0, 0}
 }
 
 type rowsCfg struct {
@@ -208,10 +245,16 @@ func runRows(cfg rowsCfg, ch func(int, []int) int, grace time.Duration) *scenOut
 							r.SetInt64("a", w.d)
 							r.SetInt64("b", initOf(off).b-w.d)
 							r.SetInt64("m", w.d)
+							if off != virginRow {
+								r.SetRecord("rec", &ctr{N: w.d})
+							}
 						} else {
 							r.MergeInt64("a", w.d)
 							r.MergeInt64("b", -w.d)
 							r.MergeInt64("m", w.d)
+							if off != virginRow {
+								r.MergeRecord("rec", &ctr{N: w.d})
+							}
 						}
 						return nil
 					})
@@ -418,10 +461,16 @@ func runSnap(cfg rowsCfg, ch func(int, []int) int, grace time.Duration) *scenOut
 							r.SetInt64("a", w.d)
 							r.SetInt64("b", initOf(off).b-w.d)
 							r.SetInt64("m", w.d)
+							if off != virginRow {
+								r.SetRecord("rec", &ctr{N: w.d})
+							}
 						} else {
 							r.MergeInt64("a", w.d)
 							r.MergeInt64("b", -w.d)
 							r.MergeInt64("m", w.d)
+							if off != virginRow {
+								r.MergeRecord("rec", &ctr{N: w.d})
+							}
 						}
 						return nil
 					})
@@ -531,7 +580,7 @@ func runSnap(cfg rowsCfg, ch func(int, []int) int, grace time.Duration) *scenOut
 	// blocks without a writer: unchanged
 	for _, off := range cfg.rows {
 		if _, touched := order[off>>14]; !touched {
-			if got, ok := readRow(d, off); off != virginRow && (!ok || got != (rowState{0, 100, 0})) {
+			if got, ok := readRow(d, off); off != virginRow && (!ok || got != (rowState{0, 100, 0, 0})) {
 				out.viol("C08", "untouched row %d restored as %+v", off, got)
 			}
 		}
@@ -785,6 +834,170 @@ func runKeys(variant int, ch func(int, []int) int, grace time.Duration) *scenOut
 	}
 	if p, r := keyState(c), keyState(rep); p != r {
 		out.viol("C06", "key lookups on the replica differ from the primary: primary [%s] replica [%s]", p, r)
+	}
+	return out
+}
+
+// ---------------------------------------------------------------------------------------
+// scenario "ddl": triggers dropped and created, an index dropped, beside committing writers.
+// C19: a trigger that exists throughout is called exactly once per committed store, and no
+// trigger is ever called twice for one store; C03: the surviving index equals its predicate.
+
+type trigEv struct {
+	off uint32
+	val int64
+	del bool
+}
+
+func runDDL(cfgSeed uint64, ch func(int, []int) int, grace time.Duration) *scenOut {
+	rng := NewRng(cfgSeed ^ 0xdd1)
+	rows := []uint32{0, 1, 16384 + 3}
+	nTrig := 2 + rng.Intn(2)
+	survivor := rng.Intn(nTrig)
+	addLate := rng.Chance(50)
+	dropIndex := rng.Chance(40)
+	var writers []wspec
+	for i := 0; i < 2; i++ {
+		w := wspec{d: int64(1 + rng.Intn(9)), set: rng.Chance(25)}
+		perm := append([]uint32(nil), rows...)
+		for j := range perm {
+			x := j + rng.Intn(len(perm)-j)
+			perm[j], perm[x] = perm[x], perm[j]
+		}
+		w.rows = perm[:1+rng.Intn(len(perm))]
+		writers = append(writers, w)
+	}
+	out := &scenOut{Viol: map[string][]string{}, Known: map[string][]string{}, Features: map[string]int{},
+		Desc: fmt.Sprintf("ddl: triggers=%d survivor=%d late=%v dropindex=%v writers=%+v", nTrig, survivor, addLate, dropIndex, writers)}
+	lg := &schedLogger{}
+	c := mkRowsColl(lg)
+	defer c.Close()
+	seedRows(c, rows)
+	lg.commits = nil
+	var mu sync.Mutex
+	events := make([][]trigEv, nTrig+1)
+	recorder := func(i int) func(column.Reader) {
+		return func(r column.Reader) {
+			mu.Lock()
+			defer mu.Unlock()
+			if r.IsDelete() {
+				events[i] = append(events[i], trigEv{off: r.Index(), del: true})
+				return
+			}
+			events[i] = append(events[i], trigEv{off: r.Index(), val: int64(r.Int())})
+		}
+	}
+	for i := 0; i < nTrig; i++ {
+		c.CreateTrigger(fmt.Sprint("t", i), "a", recorder(i))
+	}
+	s := NewSched(len(writers)+1, grace)
+	lg.s = s
+	installHook(s)
+	for i, w := range writers {
+		w := w
+		s.Go(i, func() {
+			c.Query(func(txn *column.Txn) error {
+				for _, off := range w.rows {
+					txn.QueryAt(off, func(r column.Row) error {
+						if w.set {
+							r.SetInt64("a", w.d)
+						} else {
+							r.MergeInt64("a", w.d)
+						}
+						return nil
+					})
+				}
+				return nil
+			})
+		})
+	}
+	s.Go(len(writers), func() {
+		order := rng.Fork(7)
+		var victims []int
+		for i := 0; i < nTrig; i++ {
+			if i != survivor {
+				victims = append(victims, i)
+			}
+		}
+		for j := range victims {
+			x := j + order.Intn(len(victims)-j)
+			victims[j], victims[x] = victims[x], victims[j]
+		}
+		for k, v := range victims {
+			s.Yield("d.step", 0)
+			c.DropTrigger(fmt.Sprint("t", v))
+			if k == 0 && addLate {
+				s.Yield("d.step", 0)
+				c.CreateTrigger("late", "a", recorder(nTrig))
+			}
+			if k == 0 && dropIndex {
+				s.Yield("d.step", 0)
+				c.DropIndex("big")
+			}
+		}
+		s.Yield("d.end", 0)
+	})
+	alts, stuck := s.Run(ch)
+	removeHook()
+	out.Trace, out.Stuck, out.Steps, out.Choices, out.Alts = s.Trace, stuck, len(s.Trace), s.Choices, alts
+	if stuck {
+		out.viol("C18", "some thread never finished (deadlock) in the ddl scenario")
+		return out
+	}
+	for _, p := range s.panics {
+		out.viol("C18", "panic: %s", p)
+	}
+	stores := map[uint32]int{} // committed stores per row
+	for _, w := range writers {
+		for _, off := range w.rows {
+			stores[off]++
+		}
+	}
+	final := map[uint32]int64{}
+	for _, off := range rows {
+		if rs, ok := readRow(c, off); ok {
+			final[off] = rs.a
+		}
+	}
+	mu.Lock()
+	defer mu.Unlock()
+	for i, evs := range events {
+		n := map[uint32]int{}
+		last := map[uint32]int64{}
+		for _, e := range evs {
+			n[e.off]++
+			last[e.off] = e.val
+		}
+		name := fmt.Sprint("t", i)
+		if i == nTrig {
+			name = "late"
+		}
+		for off, k := range n {
+			if k > stores[off] {
+				out.viol("C19", "trigger %s was called %d times for row %d, which %d committed transactions stored to", name, k, off, stores[off])
+			}
+		}
+		if i == survivor {
+			for off, k := range stores {
+				if n[off] != k {
+					out.viol("C19", "trigger %s (never dropped) was called %d times for row %d, which %d committed transactions stored to", name, n[off], off, k)
+				} else if last[off] != final[off] {
+					out.viol("C19", "trigger %s: the last event for row %d carries %d, the row holds %d", name, off, last[off], final[off])
+				}
+			}
+		}
+	}
+	if !dropIndex {
+		c.Query(func(txn *column.Txn) error {
+			in := map[uint32]bool{}
+			txn.With("big").Range(func(i uint32) { in[i] = true })
+			for _, off := range rows {
+				if want := final[off] >= 5; in[off] != want {
+					out.viol("C03", "index big: row %d (a=%d) membership %v beside trigger drops", off, final[off], in[off])
+				}
+			}
+			return nil
+		})
 	}
 	return out
 }
